@@ -23,7 +23,7 @@ func (prop) ID() string    { return "C16" }
 func (prop) Level() string { return "exploration" }
 func (prop) Rule() string {
 	return "hist: generated batch tasks (InfluxQL SELECT with 1-3 fields/functions, FROM with and without db/rp, WHERE trees of depth <=3 over AND/OR, parentheses, comparisons, regex matches and the user's own time predicates; period/every/offset/align or cron, groupBy(time(d[,o]), tags, *), fill, alignGroup) are asked for ExecutingTask.BatchQueries(start, stop) with start phases covering every residue class of 'every' at 1/8 resolution; live: batch tasks with every=60-150 ms (aligned and not) run for ~1 s against a fake InfluxDB client that records Query.Command. " +
-		"Oracle: every issued query string is re-parsed with influxql and (1) SEMANTIC truth table: over a grid of rows (field values from the literals of the condition +-1, tag values, times {start-1ns,start,mid,stop-1ns,stop,far past,far future}) issued(row) == user(row) AND start<=t<stop, decided by an independent 60-line evaluator; (2) stop-start == period, stop == tick-offset; (3) fields, sources, group-by dimensions and fill survive; (4) the historical list equals the reference tick list (unaligned start+k*every; aligned: the multiples of every in (start, stop]; cron: cronexpr occurrences); live: stops strictly increasing, stop+offset a multiple of every under align; (5) a query naming an undeclared db/rp yields an error and no query reaches the client. " +
+		"Oracle: every issued query string is re-parsed with influxql and (1) SEMANTIC truth table: over a grid of rows (field values from the literals of the condition +-1, tag values, times {start-1ns,start,mid,stop-1ns,stop,far past,far future}) issued(row) == user(row) AND start<=t<stop, decided by an independent 60-line evaluator; (2) stop-start == period, stop == tick-offset; (3) fields, sources, group-by dimensions and fill survive; (4) the historical list equals the reference tick list (unaligned start+k*every; aligned: the multiples of every in (start, stop]; cron: cronexpr occurrences); live: stops strictly increasing, stop+offset a multiple of every under align; (5) a query naming an undeclared db/rp yields an error and no query reaches the client; dbrp: tasks with 1-3 query nodes x 1-3 FROM sources over a 3x2 pool of (db, rp) pairs, declared with a random subset: queries are handed out (historical list / live start) iff every source of every query node is declared, and every handed-out query reads declared pairs only. " +
 		"Non-trivial: a task (script hash) with a WHERE clause containing >= 1 AND/OR whose queries were evaluated on >= 20 rows with both truth values observed"
 }
 func (prop) Assumptions() []string {
@@ -52,6 +52,9 @@ func (prop) Cases(tier string, seed uint64) []core.Case {
 	}
 	for i := 0; i < nl; i++ {
 		cs = append(cs, core.Case{ID: fmt.Sprintf("live-%d", i), Kind: "live", Seed: seed*1213 + uint64(i), N: 1})
+	}
+	for i := 0; i < nl; i++ {
+		cs = append(cs, core.Case{ID: fmt.Sprintf("dbrp-%d", i), Kind: "dbrp", Seed: seed*1217 + uint64(i), N: 40})
 	}
 	return cs
 }
@@ -509,9 +512,12 @@ func newTM(fi *kit.FakeInflux) (*kapacitor.TaskMaster, *kit.Recorder) {
 func (prop) Run(x *core.Ctx) {
 	r := core.NewRng(x.Case.Seed, 16)
 	for i := 0; i < x.Case.N; i++ {
-		if x.Case.Kind == "hist" {
+		switch x.Case.Kind {
+		case "hist":
 			runHist(x, r, i)
-		} else {
+		case "dbrp":
+			runDBRP(x, r, i%8 == 7)
+		default:
 			runLive(x, r, i)
 		}
 		if x.NumViolations() > 40 {
